@@ -228,6 +228,13 @@ func shortCase(r *lib.Run, idx int) {
 	s := &shortSim{r: r, idx: idx, rng: rng, g: chain.NewGen(rng, opts), new: newState, c: &chain.Chain{}, b: chain.NewBuilder(newState)}
 	var nodeOpts []blockchain.Option
 	prunerInit := rng.IntN(4) == 0
+	// template (every fifth case, half of them with the pruning node's filter initialiser): a graceful
+	// stop (snapshot written), a restart that stores only 1-3 blocks, a process death, a restart -
+	// the snapshot the last start finds is a few blocks behind the head, with no reorg in between
+	template := idx%5 == 4
+	if template && idx%10 == 9 {
+		prunerInit = true
+	}
 	if prunerInit {
 		nodeOpts = append(nodeOpts, blockchain.WithRunningEventFilterInitializer(pruner.InitializeRunningEventFilter))
 		r.Count("cases_with_pruner_initializer", 1)
@@ -243,6 +250,27 @@ func shortCase(r *lib.Run, idx int) {
 	s.e.t.note("new-state=%v pruner-initializer=%v; store %d generated blocks", newState, prunerInit, n0)
 	s.storeTip(0)
 	rpcToo := idx%3 == 0
+	if template && !s.dead {
+		s.restart(true)
+		if !s.dead {
+			k := 1 + rng.IntN(3)
+			from := s.c.Len()
+			if err := s.g.Extend(s.c, s.b, k); err != nil {
+				s.dead = true
+				r.Inconclusive("short:generator-failed")
+				return
+			}
+			s.e.t.note("grow %d blocks (snapshot stays %d behind)", k, k)
+			s.storeTip(from)
+			r.Count("short_template_snapshot_behind_head_by_"+fmt.Sprint(k), 1)
+		}
+		if !s.dead {
+			s.restart(false)
+		}
+		if !s.dead {
+			s.queries(4, rpcToo)
+		}
+	}
 	nsteps := 3 + rng.IntN(6)
 	for i := 0; i < nsteps && !s.dead; i++ {
 		switch x := rng.IntN(10); {
